@@ -9,6 +9,7 @@ ops (one output line each):
   decode <mfs> <hex>                    -> ok <type> <flags> <sid> <consumed> <summary> | incomplete | err <code>
   body <type> <flags> <sid> <len> <hex> -> ok <remaining> <summary> | eof | err <code>
   settings_frame <flags> <hex>          -> ok <remaining> <summary> | eof | err <code>
+  fframe <0 normal|1 closed stream|2 in header block> <hex frame> -> the flood events of that received frame (as `f`)
   stream <state> <frame kind>           -> handled | serr <code> | cerr <code>  (handle_header_state's table)
   first_settings <hex>                  -> the first SETTINGS payload of a connection, as h2.rs parses it
   gen_header <cap> <len> <type> <flags> <sid>
@@ -106,6 +107,19 @@ def stepLine (st : St) (line : String) : St × List String :=
     match flags.toNat?, hexToBytes hex with
     | some fl, some bs =>
       (st, [presStr (settingsFrame bs { len := bs.length, ftype := .settings, flags := fl, sid := 0 })])
+    | _, _ => (st, ["bad-op"])
+  | ["fframe", ctx, hex] =>
+    let ctx? : Option FrameCtx := match ctx with
+      | "0" => some .normal | "1" => some .closedStream | "2" => some .inHeaderBlock | _ => none
+    match ctx?, hexToBytes hex with
+    | some ctx, some bs =>
+      if st.dead then (st, ["dead"]) else
+      match decode bs 16384 with
+      | .ok h f _ =>
+        let r := floodFrame st.flood ctx h f
+        ({ flood := r.1, dead := r.2.isSome }, [violStr r.2 ++ " " ++ counters r.1])
+      | .incomplete => (st, ["incomplete"])
+      | .err c => (st, [s!"err {c}"])
     | _, _ => (st, ["bad-op"])
   | ["stream", sst, fk] =>
     let st? : Option StreamSt := match sst with
